@@ -114,7 +114,7 @@ Proof. vm_compute. reflexivity. Qed.
    keep their ID, state, priority, statistics and selection": AddRemoteCandidate from EVERY state satisfying the two
    bookkeeping invariants (unique pair ids: every history, theorem above; remote handles distinct and every pair's
    remote a current one: C06_pairs_from_current_remotes_step).  The checklist afterwards is the old one, position by
-   position, followed by new pairs with the new candidate; each old pair keeps id, local candidate, role, state,
+   position, followed by fresh pairs (Waiting, not nominated, no counters) with the new candidate; each old pair keeps id, local candidate, role, state,
    nomination data, retransmission count, priority and all eight counters; its remote candidate is unchanged or -- only
    if it was peer-reflexive with the new candidate's transport address -- the new candidate; the selection is unchanged. *)
 Theorem C06_supersede_keeps_pairs : forall cfg c s,
@@ -122,7 +122,7 @@ Theorem C06_supersede_keeps_pairs : forall cfg c s,
   let s' := fst (step cfg s (AddRemote c)) in
   s_selected s' = s_selected s /\
   exists keptl new, s_checklist s' = keptl ++ new /\ Forall2 (kept c) (s_checklist s) keptl /\
-                    Forall (fun p => p_rem p = c) new.
+                    Forall (fun p => exists id l ctl, p = new_pair id l c ctl) new.
 Proof. exact add_remote_keeps_pairs. Qed.
 Print Assumptions C06_supersede_keeps_pairs.
 
